@@ -308,7 +308,12 @@ func TestVerif_C15_Store(t *testing.T) {
 	}
 	var nRejected, nAccepted, nNodes int
 	var mu sync.Mutex
-	type vrec struct{ key, what string; replay any }
+	type vrec struct {
+		key, what string
+		replay    any
+		setting   string
+		path      int
+	}
 	var vios []vrec
 
 	nw := 8
@@ -362,7 +367,7 @@ func TestVerif_C15_Store(t *testing.T) {
 					mu.Lock()
 					vios = append(vios, vrec{"C15:node-unreadable:" + j.rep.class,
 						fmt.Sprintf("after %q via %s the node's settings cannot be read: %v", j.rep.stmts, c15sPathNames[j.path], err),
-						map[string]any{"stmts": j.rep.stmts, "entry_point": c15sPathNames[j.path]}})
+						map[string]any{"stmts": j.rep.stmts, "entry_point": c15sPathNames[j.path]}, "", j.path})
 					mu.Unlock()
 					fresh(k)
 					continue
@@ -405,7 +410,7 @@ func TestVerif_C15_Store(t *testing.T) {
 					vios = append(vios, vrec{"C15:" + setting + ":" + class,
 						fmt.Sprintf("%s accepted %q on a live single-node store and the node's %s changed: read-write conn %s -> %s, read-only conn query_only %s -> %s, main file %d -> %d bytes (equal=%v), WAL %d -> %d bytes",
 							c15sPathNames[j.path], j.rep.stmts, setting, base.rw, after.rw, base.roQO, after.roQO, len(base.main), len(after.main), bytes.Equal(base.main, after.main), base.walSize, after.walSize),
-						map[string]any{"stmts": j.rep.stmts, "entry_point": c15sPathNames[j.path], "setting": setting}})
+						map[string]any{"stmts": j.rep.stmts, "entry_point": c15sPathNames[j.path], "setting": setting}, setting, j.path})
 					mu.Unlock()
 				}
 				// The node is no longer a properly configured node. Per-connection
@@ -423,8 +428,22 @@ func TestVerif_C15_Store(t *testing.T) {
 		}(w)
 	}
 	wg.Wait()
-	// same reduction as in part enum: a decorated schema prefix is only its own
-	// class if the plain prefix `main.` does not bypass for that setting
+	// Same reduction as in part enum. If the canonical text itself gets through an
+	// entry point and changes a setting, the decoration of the other texts is not
+	// the cause there: they are all the class "plain-form-not-guarded".
+	plainVia := map[string]bool{}
+	for _, v := range vios {
+		if strings.HasSuffix(v.key, ":plain-form-not-guarded") {
+			plainVia[fmt.Sprintf("%s|%d", v.setting, v.path)] = true
+		}
+	}
+	for i, v := range vios {
+		if v.setting != "" && plainVia[fmt.Sprintf("%s|%d", v.setting, v.path)] {
+			vios[i].key = "C15:" + v.setting + ":plain-form-not-guarded"
+		}
+	}
+	// And a decorated schema prefix is only its own class if the plain prefix
+	// `main.` does not bypass for that setting.
 	has := map[string]bool{}
 	for _, v := range vios {
 		has[v.key] = true
